@@ -109,6 +109,93 @@ func checkC12(c *Ctx, r *Report) {
 			sel = fn
 		}
 	}
+	// the list the selector works on is the caller's: from the exported entry point that takes
+	// the options down to the selector's argument, the preference list is the options' own
+	// CipherSuites field — not a filtered, reordered or defaulted copy (which would make "empty"
+	// and "one suite" mean something else than the caller's empty and the caller's one suite)
+	r.Rule("preferences-unaltered", "the preference list handed to the cipher suite selector is the CipherSuites field of the options the caller passed to the exported constructor, unmodified", 1)
+	if optsT := c.Named("", "V2SessionOpts"); sel != nil && optsT != nil {
+		nSites := 0
+		for _, root := range c.LibFuncs() {
+			if root.Parent() != nil || unexportedName(root) || !c.libFn(root) {
+				continue
+			}
+			var optsP *ssa.Parameter
+			for _, p := range root.Params {
+				if isPtrTo(p.Type(), optsT) {
+					optsP = p
+				}
+			}
+			if optsP == nil {
+				continue
+			}
+			root := root
+			viewInstrs(root, func(in ssa.Instruction) {
+				call, ok := in.(*ssa.Call)
+				if !ok || call.Call.StaticCallee() != sel {
+					return
+				}
+				var listArg ssa.Value
+				for _, a := range callArgs(&call.Call) {
+					if sl, ok := a.Type().(*types.Slice); ok {
+						if n, ok := sl.Elem().(*types.Named); ok && n.Obj() == cs.Obj() {
+							listArg = a
+						}
+					}
+				}
+				if listArg == nil {
+					return
+				}
+				nSites++
+				ok2, why := true, ""
+				origins := viewOrigins(root, listArg)
+				if len(origins) == 0 {
+					origins = []ssa.Value{listArg}
+				}
+				for _, o := range origins {
+					ld, isLd := stripConv(o).(*ssa.UnOp)
+					if !isLd || ld.Op != token.MUL {
+						ok2, why = false, "it is "+exprText(o)
+						continue
+					}
+					aps := viewAPs(root, ld.X)
+					if len(aps) == 0 {
+						ok2, why = false, "it does not resolve to a field of the options"
+					}
+					for _, a := range aps {
+						if a.Root != ssa.Value(optsP) || a.SelString() != "CipherSuites" {
+							ok2, why = false, "it is read from "+a.String()
+						}
+					}
+				}
+				r.Check(ok2, c.FnName(root)+"|selector list", call.Pos(), "← opts.CipherSuites of the caller's options", "the list the cipher suite selector works on is not the caller's preference list: "+why+" — the caller's empty list, single suite or order is not what the selection sees")
+			})
+		}
+		if nSites == 0 {
+			r.Unk("selector call", sel.Pos(), "no exported constructor's view calls the selector with a preference list")
+		}
+		// and nothing in the library writes a preference list into an options value (a narrowed
+		// or defaulted copy would reach the selector under the caller's name)
+		for _, fn := range c.LibFuncs() {
+			fn := fn
+			rawInstrs(fn, false, func(in ssa.Instruction) {
+				st, ok := in.(*ssa.Store)
+				if !ok {
+					return
+				}
+				fa, ok := st.Addr.(*ssa.FieldAddr)
+				if !ok || !isPtrTo(fa.X.Type(), optsT) {
+					return
+				}
+				if f := structField(fa.X.Type(), fa.Field); f != nil && f.Name() == "CipherSuites" {
+					r.Bad(c.FnName(fn)+"|store to CipherSuites", st.Pos(), "the library writes a preference list into a V2SessionOpts value: what the selector sees is no longer what the caller passed")
+				}
+			})
+		}
+	} else {
+		r.Lost("V2SessionOpts / cipher suite selector")
+	}
+
 	r.Rule("selector", "selection: defaults when empty; single suite without discovery; first caller preference that is advertised; sentinel when none", 4)
 	if sel == nil || defG == nil {
 		r.Lost("cipher suite selector (function returning *ipmi.CipherSuite)")
